@@ -7,6 +7,7 @@ toolchain go1.23.5
 require (
 	github.com/fxamacker/cbor/v2 v2.5.0
 	github.com/ghodss/yaml v1.0.0
+	github.com/gorilla/websocket v1.5.1
 	github.com/safing/jess v0.3.3
 	github.com/safing/portbase v0.18.6
 	github.com/tidwall/sjson v1.2.5
@@ -28,7 +29,6 @@ require (
 	github.com/golang/glog v1.2.0 // indirect
 	github.com/golang/protobuf v1.5.3 // indirect
 	github.com/gorilla/mux v1.8.1 // indirect
-	github.com/gorilla/websocket v1.5.1 // indirect
 	github.com/hashicorp/errwrap v1.1.0 // indirect
 	github.com/hashicorp/go-multierror v1.1.1 // indirect
 	github.com/hashicorp/go-version v1.6.0 // indirect
